@@ -63,6 +63,20 @@ def run(rep):
             if rng.random() < 0.2:
                 o += ",pal=0"
             kind = -1
+        if kind != -1 and k % 4 == 3:
+            # full (non-fast) path with main deflater = evaluation deflater: the compressed winner of the reduction evaluation is a
+            # completed final-round trial that the main trials (filters that do not include the evaluation's None/Bigrams) must beat
+            # fairly - images with key chunks (PLTE/tRNS overhead K > 0), palette in non-luma order so that an evaluation runs
+            w, h = rng.choice([(24, 24), (16, 12), (32, 8), (20, 20)])
+            ncol = rng.choice([3, 5, 9, 17, 40])
+            pal = [tuple(rng.randrange(256) for _ in range(3)) + (rng.choice([255, 255, 255, 0, 128]),) for _ in range(ncol)]
+            idx = [[(rng.randrange(ncol),) for x in range(w)] for y in range(h)]
+            tok = pg.img_token(w, h, 3, 8, False, pal, pg.pack_image(idx, w, h, 3, 8, False))
+            fs = sorted(rng.sample([1, 2, 3, 4, 5, 6, 8, 9], rng.choice([1, 2, 3])))
+            o = f"fast=0,zc={rng.choice([1, 3, 5, 8, 8])},filters={'+'.join(map(str, fs))}"
+            if rng.random() < 0.5:
+                o += ",bd=0"
+            kind = -1
         if kind == -1:
             pass
         elif kind == 0:
@@ -73,7 +87,7 @@ def run(rep):
         else:
             o = e2e.rand_opts(rng, "any")
         if rng.random() < 0.3:
-            o += ",force=1"
+            o = "force=1" if o == "-" else o + ",force=1"
         mx = "-" if "force=1" in o else str(rng.choice([40, 80, 200, 2000]))
         cs.add(f"optraw {o} {mx} {tok}", o=o, mx=mx, tok=tok)
     ri = vlib.run_cases(impl, cs.lines)
